@@ -1,1 +1,142 @@
-// e2e helpers (filled in later)
+//! Loopback-QUIC helpers: fresh certificates from the bundled generator, an in-process
+//! server on its own runtime, client connections, raw (library-bypassing) peers.
+use anyhow::{anyhow, Context, Result};
+use clap::Parser;
+use quinn::{ClientConfig, Connection, Endpoint, TransportConfig};
+use rustls::{Certificate, PrivateKey, RootCertStore};
+use selium::keep_alive::BackoffStrategy;
+use selium::Client;
+use selium_protocol::BiStream;
+use selium_server::args::UserArgs;
+use selium_server::server::Server;
+use std::net::SocketAddr;
+use std::path::{Path, PathBuf};
+use std::sync::Arc;
+use std::time::Duration;
+
+/// Generates `dir/client/*` and `dir/server/*` with the bundled generator, in a child process
+/// (the generator prints to stdout).
+pub fn gen_certs(dir: &Path) -> Result<()> {
+    let exe = std::env::current_exe()?;
+    let st = std::process::Command::new(exe)
+        .args(["gen-certs", dir.to_str().unwrap()])
+        .stdout(std::process::Stdio::null())
+        .stderr(std::process::Stdio::null())
+        .status()?;
+    if !st.success() {
+        return Err(anyhow!("certificate generation failed"));
+    }
+    Ok(())
+}
+
+/// to be called by the binary's `gen-certs` subcommand
+pub fn gen_certs_here(dir: &Path) -> Result<()> {
+    use selium_tools::cli::GenCertsArgs;
+    use selium_tools::commands::gen_certs::GenCertsRunner;
+    use selium_tools::traits::CommandRunner;
+    GenCertsRunner::from(GenCertsArgs {
+        server_out_path: dir.join("server"),
+        client_out_path: dir.join("client"),
+        no_expiry: false,
+    })
+    .run()
+}
+
+pub struct ServerHandle {
+    pub addr: SocketAddr,
+    rt: Option<tokio::runtime::Runtime>,
+}
+
+impl ServerHandle {
+    /// stop the server at once (drops its runtime, releasing the UDP port)
+    pub fn stop(mut self) {
+        if let Some(rt) = self.rt.take() {
+            rt.shutdown_background();
+        }
+    }
+}
+impl Drop for ServerHandle {
+    fn drop(&mut self) {
+        if let Some(rt) = self.rt.take() {
+            rt.shutdown_background();
+        }
+    }
+}
+
+/// Starts the real server (selium_server::server::Server) on its own runtime.
+pub fn start_server(certs: &Path, bind: &str) -> Result<ServerHandle> {
+    let args = UserArgs::parse_from([
+        "",
+        "--bind-addr",
+        bind,
+        "--cert",
+        certs.join("server/localhost.der").to_str().unwrap(),
+        "--key",
+        certs.join("server/localhost.key.der").to_str().unwrap(),
+        "--ca",
+        certs.join("server/ca.der").to_str().unwrap(),
+    ]);
+    let rt = tokio::runtime::Builder::new_multi_thread().worker_threads(4).enable_all().build()?;
+    let (tx, rx) = std::sync::mpsc::channel();
+    rt.spawn(async move {
+        match Server::try_from(args) {
+            Ok(server) => {
+                let _ = tx.send(server.addr().map_err(|e| e.to_string()));
+                let _ = server.listen().await;
+            }
+            Err(e) => {
+                let _ = tx.send(Err(e.to_string()));
+            }
+        }
+    });
+    let addr = rx.recv_timeout(Duration::from_secs(10)).context("server start")?.map_err(|e| anyhow!(e))?;
+    Ok(ServerHandle { addr, rt: Some(rt) })
+}
+
+pub async fn connect_client(addr: SocketAddr, certs: &Path, backoff: BackoffStrategy) -> Result<Client> {
+    Ok(selium::custom()
+        .keep_alive(5_000u64)?
+        .backoff_strategy(backoff)
+        .endpoint(&addr.to_string())
+        .with_certificate_authority(certs.join("client/ca.der"))?
+        .with_cert_and_key(certs.join("client/localhost.der"), certs.join("client/localhost.key.der"))?
+        .connect()
+        .await?)
+}
+
+pub fn read_der(p: PathBuf) -> Result<Vec<u8>> {
+    std::fs::read(&p).with_context(|| format!("read {p:?}"))
+}
+
+/// A raw QUIC connection with explicit identity material (None = no client certificate).
+pub async fn raw_connect(addr: SocketAddr, ca_der: &[u8], identity: Option<(Vec<u8>, Vec<u8>)>) -> Result<Connection> {
+    let mut roots = RootCertStore::empty();
+    roots.add(&Certificate(ca_der.to_vec()))?;
+    let builder = rustls::ClientConfig::builder().with_safe_defaults().with_root_certificates(roots);
+    let mut crypto = match identity {
+        Some((cert, key)) => builder.with_client_auth_cert(vec![Certificate(cert)], PrivateKey(key))?,
+        None => builder.with_no_client_auth(),
+    };
+    crypto.alpn_protocols = vec![b"hq-29".to_vec()];
+    let mut config = ClientConfig::new(Arc::new(crypto));
+    let mut transport = TransportConfig::default();
+    transport.keep_alive_interval(Some(Duration::from_secs(5)));
+    config.transport_config(Arc::new(transport));
+    let mut endpoint = Endpoint::client("0.0.0.0:0".parse().unwrap())?;
+    endpoint.set_default_client_config(config);
+    let conn = endpoint.connect(addr, "localhost")?.await?;
+    Ok(conn)
+}
+
+pub async fn raw_connect_trusted(addr: SocketAddr, certs: &Path) -> Result<Connection> {
+    raw_connect(
+        addr,
+        &read_der(certs.join("client/ca.der"))?,
+        Some((read_der(certs.join("client/localhost.der"))?, read_der(certs.join("client/localhost.key.der"))?)),
+    )
+    .await
+}
+
+pub async fn raw_stream(conn: &Connection) -> Result<BiStream> {
+    Ok(BiStream::try_from_connection(conn).await?)
+}
